@@ -112,20 +112,30 @@ def chunks(seq, size=None, dfmt="f", byte_order=None, padval=0.):
   """
   if size is None:
     size = chunks.size
-  chunk = array.array(dfmt, xrange(size))
+  chunk = array.array(dfmt, [0] * size)
   idx = 0
+
+  # Arrays use the native byte order: swaps when another one is asked for
+  swap = byte_order is not None and \
+         struct.pack(byte_order + "h", 1) != struct.pack("h", 1)
+
+  def to_bytes():
+    data = array.array(dfmt, chunk) if swap else chunk
+    if swap:
+      data.byteswap()
+    return getattr(data, "tobytes", getattr(data, "tostring", None))()
 
   for el in seq:
     chunk[idx] = el
     idx += 1
     if idx == size:
-      yield chunk.tostring()
+      yield to_bytes()
       idx = 0
 
   if idx != 0:
     for idx in xrange(idx, size):
       chunk[idx] = padval
-    yield chunk.tostring()
+    yield to_bytes()
 
 
 class RecStream(Stream):
